@@ -790,6 +790,24 @@ def rule_loop_retry(ctx):
                           'queue and no other thread syncing it spins forever', where=ctx.where(b.nid, b.blocks[h]['term'].get('line')),
                           expected='apply_reads_writes_if_needed (-> Housekeeper::try_sync) inside the loop, before try_send')
             # op retained on Full: the value sent in the next iteration derives from the Full payload
+        # a write op is never given up: every normal return of the scheduler has seen its try_send succeed (Ok), or reports the error
+        from .symex import PathLimit as _PL, RESULT as _RES
+        try:
+            sp = [p for p in ctx.symex(inline_depth=2, loop_visits=2, inline_pred=lambda n_, bb, d: True if (bb.locals[0]['ty']['s'] == 'bool' and not bb.loops() and len(bb.blocks) <= 30) else False).run(b.nid) if not p.diverged]
+        except _PL:
+            raise CheckFailure('LOOP-retry: path limit in %s' % b.nid)
+        for p in sp:
+            ret = p.ret
+            is_ok = isinstance(ret, tuple) and ret and ret[0] == 'aggr' and ret[1] == _RES and ret[2] == 'Ok'
+            if not is_ok:
+                continue
+            sent_ok = any(isinstance(c, tuple) and c[0] == 'discr' and v == 0 and isinstance(c[1], tuple) and c[1][0] == 'call' and str(c[1][1]).endswith('Sender::try_send')
+                          for c, v in p.conds)
+            r.instance(function=b.nid, returns='Ok', op_was_queued=sent_ok)
+            if not sent_ok:
+                r.violate(b.nid, 'write-op-dropped', 'Ok-without-send', 'a path of %s returns Ok although no try_send of the write op succeeded on it (conditions: %s): the op -- and the '
+                          'weight change / removal it carries -- is lost' % (b.nid, [fmt(c)[:50] + '==' + str(v) for c, v in p.conds][:6]), where=ctx.where(b.nid),
+                          expected='Ok(()) only after try_send(op) == Ok')
     r.require_floor(1, 'write-retry loops')
     return r
 
@@ -879,4 +897,84 @@ def rule_housekeeper_lifetime(ctx):
                     r.violate(nid, 'housekeeper-none', 'BaseCache{housekeeper: None}', 'BaseCache constructed without a housekeeper: '
                               'no operation would ever trigger maintenance', where=ctx.where(nid, st.get('line')))
     r.require_floor(3, 'writers/constructors of BaseCache.housekeeper')
+    return r
+
+
+def rule_flush_trigger(ctx):
+    r = RuleResult('CMP-flush-trigger', 'the client-side housekeeping triggers look at their own queue: a write path skips Housekeeper::try_sync only after establishing that the '
+                   'WRITE queue is below a flush point <= WRITE_LOG_SIZE, a read path only after establishing the same for the READ queue -- so a full queue always '
+                   'makes its producer run the maintenance (the progress argument of the write-retry loop)')
+    if not ctx.has_sync:
+        return r
+    from .roles import write_scheduler, named as _named, get_roles
+    from .symex import PathLimit as _PL
+    prog = ctx.prog
+    R = get_roles(ctx)
+    C = prog.consts
+    pre = 'common::concurrent::constants::'
+    size = {'write': (C.get(pre + 'WRITE_LOG_SIZE') or {}).get('val'), 'read': (C.get(pre + 'READ_LOG_SIZE') or {}).get('val')}
+    if None in size.values():
+        raise CheckFailure('CMP-flush-trigger: log size constants not found')
+    ws = set(write_scheduler(ctx))
+    from_write = set()
+    for w in ws:
+        from_write |= prog.reachable_from([w])
+    from_read = prog.reachable_from([_named(ctx, 'sync.get_lookup')])
+    triggers = sorted(n for n, b in prog.bodies.items() if b.kind != 'closure' and n.startswith('sync::') and (prog.callees(n) & R.try_sync)
+                      and n not in R.try_sync and not prog.bodies[n].is_pub)
+    n_inst = 0
+    for F in triggers:
+        kinds = [k for k, S in (('write', from_write), ('read', from_read)) if F in S]
+        if not kinds:
+            continue
+        b = prog.bodies[F]
+
+        def pol(n_, bb, d):
+            if n_ in R.try_sync or bb.kind == 'closure':
+                return False
+            return True if (not bb.loops() and len(bb.blocks) <= 30 and not any(e[0] == 'write' for e in ctx.eff.transitive(n_))) else False
+        try:
+            paths = [p for p in ctx.symex(inline_depth=4, loop_visits=2, inline_pred=pol).run(F) if not p.diverged]
+        except _PL:
+            raise CheckFailure('CMP-flush-trigger: path limit in %s' % F)
+
+        def chan_kind(t):
+            """which queue a `len()` term measures: by the type of the parameter it is taken from, or the state field it names"""
+            ks = set()
+            for x in subterms(t):
+                if isinstance(x, tuple) and x and x[0] == 'call' and str(x[1]).endswith('::len') and x[2]:
+                    for y in subterms(x[2][0]):
+                        if isinstance(y, tuple) and y and y[0] == 'param' and 1 <= y[1] <= b.argc:
+                            ty = b.local_ty(y[1])['s']
+                            if 'WriteOp' in ty:
+                                ks.add('write')
+                            if 'ReadOp' in ty:
+                                ks.add('read')
+                        if isinstance(y, tuple) and y and y[0] == 'fld' and y[2] in ('write_op_ch', 'read_op_ch'):
+                            ks.add('write' if y[2] == 'write_op_ch' else 'read')
+            return ks
+        for p in paths:
+            if any(e[0] == 'call' and e[1] in R.try_sync for e in p.events):
+                continue
+            def is_hk(t):
+                if 'housekeeper' in fmt(t):
+                    return True
+                return any(isinstance(y, tuple) and y and y[0] == 'param' and 1 <= y[1] <= b.argc and 'Housekeeper' in b.local_ty(y[1])['s'] for y in subterms(t))
+            if any(isinstance(c, tuple) and c[0] == 'discr' and v == 0 and is_hk(c[1]) for c, v in p.conds):
+                continue    # no housekeeper configured
+            for kind in kinds:
+                ok, seen = False, []
+                for c, v in p.conds:
+                    if isinstance(c, tuple) and c[0] == 'cmp' and c[1] == 'le' and v is False and isinstance(c[2], tuple) and c[2][0] == 'c' and isinstance(c[2][1], int):
+                        ck = chan_kind(c[3])
+                        seen.append((c[2][1], sorted(ck)))
+                        if ck == {kind} and 0 < c[2][1] <= size[kind]:
+                            ok = True
+                n_inst += 1
+                r.instance(function=F, path_without_try_sync=True, queue=kind, below_flush_point_established=ok, length_tests=seen)
+                if not ok:
+                    r.violate(F, 'trigger-wrong-queue', kind, 'a path of %s on the %s path skips Housekeeper::try_sync without having established that the %s queue is below its flush point '
+                              '(length tests on this path: %s): with that queue full and the other one short nobody runs the maintenance' % (F, kind, kind, seen), where=ctx.where(F),
+                              expected='%s_op_ch.len() >= %s_LOG_FLUSH_POINT || .. => try_sync' % (kind, kind.upper()))
+    r.require_floor(2, 'trigger paths without try_sync')
     return r
